@@ -535,7 +535,7 @@ func judgePyro(pc *pyroCase) (sig, desc, sqlText, undecided string, probe bool) 
 	d := diffs[0]
 	sig = fmt.Sprintf("matchers/pyro/%s/%s", rootCause(d.feat), d.where)
 	if d.feat == "unexplained" {
-		sig += "/" + d.kind + "/ops=" + opsKey(pc.Selectors)
+		sig = "matchers/pyro/unexplained/" + d.kind + "/ops=" + opsKey(pc.Selectors)
 	}
 	detail := d.kind + "/" + d.feat
 	verb := "is not selected although its labels satisfy every matcher"
@@ -794,7 +794,7 @@ func childMatchers(c *run.Ctx, cfg childCfg) {
 			key := fmt.Sprintf("matchers/prom/%s/ops=%s/n=%d/features=%s/cluster=%v", class, opsKey(pc.Matchers), min(len(pc.Matchers), 9), strings.Join(feats, "+"), pc.Cluster)
 			c.BeginCase(gi, map[string]any{"monitor": "matchers/prom", "case": pc})
 			c.Case(key)
-			if gi < 4 {
+			if gi < 2 {
 				c.Sample(map[string]any{"monitor": "matchers/prom", "matchers": matchersString(pc.Matchers), "series": len(pc.Series), "class": class})
 			}
 			// oracle cross-check: the evaluator written here against Prometheus' own labels.Matcher
@@ -876,7 +876,7 @@ func childMatchers(c *run.Ctx, cfg childCfg) {
 		key := fmt.Sprintf("matchers/pyro/%s/ops=%s/n=%d/on=%s/features=%s", class, opsKey(pc.Selectors), min(len(pc.Selectors), 9), strings.Join(nl, "+"), strings.Join(feats, "+"))
 		c.BeginCase(gi, map[string]any{"monitor": "matchers/pyro", "case": pc})
 		c.Case(key)
-		if gi < 4 {
+		if gi < 2 {
 			c.Sample(map[string]any{"monitor": "matchers/pyro", "selector": pyroSelectorText(pc.Selectors), "series": len(pc.Series), "class": class})
 		}
 		sig, desc, sqlText, undecided, probe := judgePyro(&pc)
